@@ -224,11 +224,34 @@ fn eval_roundtrip(case: &Case, acc: &mut Acc, nk: u64, ni: u64, lens: &[usize], 
     let len = lens[c[3] as usize];
     let ivb = iv(c[2], len);
     let message = msg(c[4], len);
-    let input = json!({"mode": m.name(), "key": hx(&k), "iv": hx(&ivb), "msg_len": len, "msg_pattern": c[4], "msg": hx(&message)});
-    acc.evaluations += 1;
     if case.idx % 3001 == 0 {
         acc.sample(case.idx, || json!({"space": "enc-dec", "mode": m.name(), "key": KEY_NAMES[c[1] as usize], "iv": IV_NAMES[c[2] as usize], "iv_bytes": hx(&ivb), "msg_len": len, "msg_pattern": c[4]}));
     }
+    eval_roundtrip_msg(case, acc, m, k, ivb, message, &format!("{}", c[4]));
+}
+
+/// Messages whose END imitates PKCS#7 padding: the last 1, 2 or all bytes equal the pad value the message itself will
+/// get (16 - len % 16), or the last byte is 0x01 / the last two are 0x02 0x02 — an unpadding routine that searches for
+/// the end of the message instead of trusting the final byte eats such tails.
+fn padding_like_message(len: usize, kind: u64) -> Vec<u8> {
+    let pad = (16 - len % 16) as u8;
+    let mut m: Vec<u8> = (0..len).map(|i| 0x40u8.wrapping_add(i as u8 * 3)).collect();
+    let tail: Vec<u8> = match kind {
+        0 => vec![pad],
+        1 => vec![pad, pad],
+        2 => vec![pad; len],
+        3 => vec![0x01],
+        _ => vec![0x02, 0x02],
+    };
+    let k = tail.len().min(len);
+    m[len - k..].copy_from_slice(&tail[..k]);
+    m
+}
+
+fn eval_roundtrip_msg(case: &Case, acc: &mut Acc, m: Mode, k: Vec<u8>, ivb: [u8; 16], message: Vec<u8>, pattern_name: &str) {
+    let len = message.len();
+    let input = json!({"mode": m.name(), "key": hx(&k), "iv": hx(&ivb), "msg_len": len, "msg_pattern": pattern_name, "msg": hx(&message)});
+    acc.evaluations += 1;
 
     // The statement quantifies CTR only over IVs whose low 64 counter bits do not wrap within the
     // message. Wrapping combinations are run for information (no verdict).
@@ -503,6 +526,13 @@ pub fn spaces(tier: Tier) -> Vec<Space> {
     let ls = lens(tier);
     let mut v = vec![];
     v.push(Space::new("enc-dec", 4 * nk * ni * ls.len() as u64 * np, move |case, acc| eval_roundtrip(case, acc, nk, ni, &ls, np)));
+    // plaintexts whose end imitates PKCS#7 padding (every length 1..=80 x five tail kinds x modes x two keys x two IVs)
+    v.push(Space::new("plaintext-ends-like-padding", 4 * 2 * 2 * 80 * 5, move |case, acc| {
+        let c = coords(case.idx, &[4, 2, 2, 80, 5]);
+        let m = MODES[c[0] as usize];
+        let len = c[3] as usize + 1;
+        eval_roundtrip_msg(case, acc, m, key(c[1], m.key_len()), iv(c[2], len), padding_like_message(len, c[4]), ["tail=pad", "tail=pad,pad", "all=pad", "tail=01", "tail=02,02"][c[4] as usize]);
+    }));
     // rejection legs: fewer IVs are enough (CBC does not interpret the IV), all keys
     let ni_rej: u64 = if tier.is_thorough() { 4 } else { 2 };
     v.push(Space::new("cbc-truncation", 2 * nk * ni_rej * 4 * 49, move |case, acc| eval_truncation(case, acc, nk, ni_rej)));
